@@ -265,6 +265,14 @@ def r7_gate_is_the_only_gate(ctx):
         n += 1
         R.check(bool(re.search(CWS, c.body.path)), "C19.R7", "refusal-site:%s:%s" % (fkey(c.body), (c.name() or "").split("::")[-1]), "%s is answered by call_with_service's method/content-type match" % (c.name() or "").split("::")[-1], "%s answers %s outside call_with_service's method/content-type match: the order `method first (405), then content type (415)` no longer holds for this entry point" % (short(c.body.path), (c.name() or "").split("::")[-1]), where(c))
     R.floor("C19.R7", n, 2, "405/415 refusal sites")
+    # the 413 is an answer of the same gate, *after* method and content type were accepted: it is built only where the body
+    # is read (a `fail fast` size test in front of the gate answers 413 to requests that must get 405 / 415)
+    from .c07 import http_reader
+    hr_ = http_reader(F)
+    for c in F.all_calls(r"transport::http::response::too_large$"):
+        if c.body.crate != SERVER or is_test_body(c.body):
+            continue
+        R.check(c.body.path == hr_.path or bool(re.search(CWS, c.body.path)), "C19.R7", "refusal-site:%s:too_large" % fkey(c.body), "413 is answered where the accepted request's body is read", "%s answers 413 outside the function that reads the body of an accepted POST: a request with another method or content type that announces a large Content-Length gets 413 instead of 405 / 415" % short(c.body.path), where(c))
     m = 0
     for c in F.all_calls(r"is_upgrade_request$"):
         if c.body.crate != SERVER or is_test_body(c.body):
